@@ -75,8 +75,10 @@ PROPS = {
                      "store modelled as insert-or-ignore by id; the real SQLite store is exercised by the correspondence",
                      "Inv: a node that only ever received unsolicited blocks (served state = last validated, empty write buffer)"]),
     "C13": dict(
-        lean_core=["Props.GenTie.Params", "Props.C13"], lean_code=["Props.GenTie.PoolRule"],
-        gen_funcs=["set_coinstate_effects", "add_to_pool_effects"], harness="c13",
+        lean_core=["Props.GenTie.Params", "Props.C13"], lean_code=["Props.GenTie.PoolRule", "Props.GenTie.TxHandlerRule"],
+        gen_funcs=["set_coinstate_effects", "add_to_pool_effects", "handle_tx_effects"], harness="c13",
+        code_deps={"Props.GenTie.PoolRule": ["set_coinstate_effects", "add_to_pool_effects"],
+                   "Props.GenTie.TxHandlerRule": ["handle_tx_effects"]},
         assumptions=["_cleanup catches only ValidateTransactionError; other exceptions cannot arise for a pooled transaction and are treated as eviction in the model"]),
     "C12": dict(
         lean_core=["Props.GenTie.Params", "Props.C13", "Props.C02", "Props.C12", "Props.C12Reach"],
@@ -84,7 +86,12 @@ PROPS = {
         assumptions=["partial: the clock corner head.timestamp >= clock + 30 is the known finding D5",
                      "candidate fits in one block (hsize); head id is not all zeros and its by-height index is stored (true of every state built from well-formed arrivals)"]),
     "C20": dict(
-        lean_core=["Props.C13", "Props.C09", "Props.C11", "Props.C20"], lean_code=[], gen_funcs=[], harness="c20",
+        lean_core=["Props.GenTie.Params", "Props.C13", "Props.C09", "Props.C11", "Props.C20"],
+        lean_code=["Props.GenTie.TxHandlerRule", "Props.GenTie.PoolRule", "Props.GenTie.HandleBlockRule"],
+        gen_funcs=["handle_tx_effects", "set_coinstate_effects", "add_to_pool_effects", "handle_block_effects"], harness="c20",
+        code_deps={"Props.GenTie.TxHandlerRule": ["handle_tx_effects"],
+                   "Props.GenTie.PoolRule": ["set_coinstate_effects", "add_to_pool_effects"],
+                   "Props.GenTie.HandleBlockRule": ["handle_block_effects"]},
         assumptions=["per message: valid messages earlier in a stream have their legitimate effects",
                      "thread interleavings between the miner thread and the networking thread are not exhibited by the model"]),
     "C14": dict(
@@ -92,11 +99,14 @@ PROPS = {
         assumptions=["ECDSA signatures are randomised: the model emits which key must sign which message, the harness verifies the implementation's signatures with python-ecdsa",
                      "partial: transactions above MAX_BLOCK_SIZE (about 1,979 inputs) are the known finding D7"]),
     "C15": dict(
-        lean_core=["Props.C15"], lean_code=[], gen_funcs=[], harness="c15",
+        lean_core=["Props.GenTie.Params", "Props.C15"], lean_code=["Props.GenTie.WalletSaveRule"], gen_funcs=["save_wallet_effects"], harness="c15",
         assumptions=["restore_annotated_public_key is the documented inverse of a hand-out", "JSON text layer is CPython's; the hex layer is modelled",
                      "atomicity with respect to process crashes (rename is atomic, writes append); OS crashes are not modelled"]),
     "C19": dict(
-        lean_core=["Props.GenTie.Params", "Props.C19"], lean_code=["Props.GenTie.Heights"], gen_funcs=["is_time_to_connect"], harness="c19",
+        lean_core=["Props.GenTie.Params", "Props.C19"], lean_code=["Props.GenTie.Heights", "Props.GenTie.PeerBookRule"],
+        gen_funcs=["is_time_to_connect", "get_recent_block_heights", "peer_connected_effects", "peer_disconnected_effects"], harness="c19",
+        code_deps={"Props.GenTie.Heights": ["is_time_to_connect", "get_recent_block_heights"],
+                   "Props.GenTie.PeerBookRule": ["peer_connected_effects", "peer_disconnected_effects"]},
         assumptions=["the platform selector limit (512 sockets) is not reached", "rename is atomic with respect to process crashes"]),
     "C08": dict(
         lean_core=["Props.C08"], lean_code=[], gen_funcs=[], harness="c08",
